@@ -351,7 +351,7 @@ var gcm16 = wcat(wv(2, 16), wv(3, 0))
 var gcm32 = wcat(wv(2, 32), wv(3, 0))
 var hkdfPrfFormat = wcat(wm(1, wv(1, 3), wb(2, []byte{9, 8, 7})), wv(2, 32), wv(3, 0))
 
-// templates: valid templates of the 30 registered parameters parsers.
+// templates: valid templates of the 29 registered parameters parsers.
 func templates() []tmplCase {
 	ctrHmac := func(aes, hk, iv, tag, hash uint64) []byte {
 		return wcat(wm(1, wm(1, wv(1, iv)), wv(2, aes)), wm(2, wm(1, wv(1, hash), wv(2, tag)), wv(2, hk), wv(3, 0)))
@@ -435,7 +435,9 @@ func walkMutations(root []byte, maxDepth int, edges []uint64, emit func(v []byte
 			c := append(append([]wfield(nil), fs[:i]...), fs[i+1:]...)
 			return rebuild(joinFields(c))
 		}
-		// an unknown field (varint and bytes), a duplicate of the whole message body (merge), trailing garbage
+		// an unknown field (varint and bytes), the whole message body twice (every field repeated: scalars
+		// last-wins, sub-messages merged), trailing garbage
+		emit(rebuild(append(append([]byte(nil), b...), b...)), "dup-body"+path)
 		emit(rebuild(append(append([]byte(nil), b...), wv(15, 7)...)), "unknown-var"+path)
 		emit(rebuild(append(append([]byte(nil), b...), wb(14, []byte{1, 2})...)), "unknown-len"+path)
 		emit(rebuild(append(append([]byte(nil), b...), 0xff)), "trailing"+path)
@@ -472,6 +474,26 @@ func walkMutations(root []byte, maxDepth int, edges []uint64, emit func(v []byte
 				g.Typ, g.Var = protowire.VarintType, 1
 				emit(with(i, g), "wiretype"+p)
 				sub, isMsg := splitFields(f.Buf)
+				if isMsg && plausibleP(sub) && len(sub) > 0 {
+					// the singular sub-message written in two pieces (the decoder merges them): split in the
+					// middle; the whole again after itself; and a second piece that overrides its first field
+					h1, h2 := f, f
+					h1.Buf, h2.Buf = joinFields(sub[:len(sub)/2]), joinFields(sub[len(sub)/2:])
+					c := append(append(append([]wfield(nil), fs[:i]...), h1, h2), fs[i+1:]...)
+					emit(rebuild(joinFields(c)), "split"+p)
+					c = append(append(append([]wfield(nil), fs[:i]...), h2, h1), fs[i+1:]...)
+					emit(rebuild(joinFields(c)), "split-swapped"+p)
+					ov := f
+					first := sub[0]
+					if first.Typ == protowire.VarintType {
+						first.Var++
+					} else if first.Typ == protowire.BytesType {
+						first.Buf = append(append([]byte(nil), first.Buf...), 0)
+					}
+					ov.Buf = joinFields([]wfield{first})
+					c = append(append(append([]wfield(nil), fs[:i]...), f, ov), fs[i+1:]...)
+					emit(rebuild(joinFields(c)), "merge-override"+p)
+				}
 				if isMsg && plausibleP(sub) && depth < maxDepth {
 					i := i
 					walk(f.Buf, depth+1, p, func(nb []byte) []byte {
@@ -584,6 +606,21 @@ func directedParams(step int) []string {
 		lines = append(lines, "P|"+hx.H(tmplBytes(u, gcm16, pRaw))+"|tmpl-no-parser:"+strings.TrimPrefix(u, tp))
 	}
 	lines = append(lines, "P|-|tmpl-empty:none", "P|ff|tmpl-garbage:none")
+	// ONE deep case: an ECIES format nested as its own DEM template, 1500 times in the thorough tier (about 135 KB,
+	// 125 MB of live memory in the code) and 300 times in the quick tier (the extracted model re-decodes the rest of
+	// the value at every level with unary / binary-positive arithmetic: 4.6 minutes for depth 1500, about 10 s for 300).
+	// The verdict is an error (the innermost level is reached; a nested ECIES format is not an allowed DEM), but the
+	// code keeps every level's decoded format alive across the recursive ParseParameters: live memory quadratic in the
+	// depth (measured by the fourth audit: depth 1000 -> 66 MB, 2000 -> 222 MB, 4000 -> 856 MB, 6000 -> 2 GB).
+	depth := 300
+	if step == 1 {
+		depth = 1500
+	}
+	deep := tmplBytes(tp+"AesGcmKey", gcm16, pRaw)
+	for i := 0; i < depth; i++ {
+		deep = tmplBytes(tp+"EciesAeadHkdfPrivateKey", eciesFormat(2, 3, 1, deep, nil), pRaw)
+	}
+	lines = append(lines, "P|"+hx.H(deep)+fmt.Sprintf("|tmpl-ecies-depth-%d:EciesP256Gcm", depth))
 	return lines
 }
 
